@@ -20,4 +20,5 @@ def extras(tier, seed):
         run_bounded("C16", "c16_ancestors.py", "C16/bounded/ancestors", tier, seed),
         run_bounded("C16", "c16_plan_merge.py", "C16/bounded/plan-merge", tier, seed),
         run_bounded("C16", "c16_reducers.py", "C16/bounded/reducers", tier, seed),
+        run_bounded("C16", "c16_replan.py", "C16/bounded/replan-current-iteration", tier, seed),
     ]
